@@ -1018,6 +1018,12 @@ impl Differ {
                 let (dx, dy) = (self.d(Sf32(x)), self.d(Sf32(y)));
                 s_add(s_mul(dx, Sf32(y)), s_mul(Sf32(x), dy))
             }
+            Node::Div(x, y) if self.mode == DiffMode::Aligned && sigmoid_arg(x, y).is_some() => {
+                // y = 1/(1+exp(-u)): the library's closed form y(1-y), proved equal to the generic rule in C07
+                let u = sigmoid_arg(x, y).unwrap();
+                let du = self.d(Sf32(u));
+                s_mul(e * (c(1.0) - e), du)
+            }
             Node::Div(x, y) => {
                 let (dx, dy) = (self.d(Sf32(x)), self.d(Sf32(y)));
                 if dy.is_zero_const() {
@@ -1079,6 +1085,33 @@ impl Differ {
         };
         self.memo.insert(e.0, r);
         r
+    }
+}
+
+/// `Some(u)` if `x / y` is the sigmoid pattern `1.0 / (1.0 + exp(-u))`.
+fn sigmoid_arg(x: R, y: R) -> Option<R> {
+    if cv(x) != Some(1.0) {
+        return None;
+    }
+    let yi = match y {
+        R::N(i) => i,
+        _ => return None,
+    };
+    let (a, b) = match with(|ar| ar.node(yi)) {
+        Node::Add(a, b) => (a, b),
+        _ => return None,
+    };
+    let ei = match (cv(a), b) {
+        (Some(one), R::N(i)) if one == 1.0 => i,
+        _ => return None,
+    };
+    let ni = match with(|ar| ar.node(ei)) {
+        Node::F(F1::Exp, R::N(n)) => n,
+        _ => return None,
+    };
+    match with(|ar| ar.node(ni)) {
+        Node::Neg(u) => Some(u),
+        _ => None,
     }
 }
 
